@@ -20,7 +20,7 @@ pub struct Frag {
 
 pub fn new_stream() -> Stream {
     let mut s = Stream::new("index", REQ, "chk_index", "list frag * list N", "outcome (list (option N))");
-    s.shard = 800;
+    s.shard = 400;
     s
 }
 
@@ -256,5 +256,5 @@ pub fn run(args: &Args, sink: &mut Sink, st: &mut Stream) {
     } else {
         exhaustive(sink, st, 6, false);
     }
-    random(sink, st, &mut rng, args.vol(300, 5000));
+    random(sink, st, &mut rng, args.vol(150, 4000));
 }
